@@ -473,11 +473,15 @@ func c11watch() {
 	}
 }
 
+var c11stageCPU = map[string]time.Duration{}
+
 func c11stage(name string, f func()) (sig string, what string) {
 	c11setStage(name)
+	t0 := c11cpuNow()
 	defer func() {
+		c11stageCPU[name] += c11cpuNow() - t0
 		if r := recover(); r != nil {
-			sig = "toolchain-panic:" + name + ":" + c11panicSig(r)
+			sig = "toolchain-panic:" + strings.TrimSuffix(name, "-siblings") + ":" + c11panicSig(r)
 			what = fmt.Sprint(r)
 		}
 	}()
@@ -489,11 +493,9 @@ var (
 	c11reFacts = regexp.MustCompile(`(?s)\. Facts:\n.*$`)
 	c11reAt    = regexp.MustCompile(` at [^\s"]+:\d+$`)
 	c11reDQ    = regexp.MustCompile(`"(\\.|[^"\\])*"`)
-	c11reSQ    = regexp.MustCompile(`'(\\.|[^'\\])*'`)
 	c11reNum   = regexp.MustCompile(`-?\d+`)
 	c11reAka   = regexp.MustCompile(` \{aka [^}]*\}`)
 	c11reGccQ  = regexp.MustCompile("[‘'`][^’'`]*[’']")
-	c11reLabel = regexp.MustCompile(`(for|label|labeled|%s) [a-z]+[.a-zA-Z_0-9]*$`)
 )
 
 // c11errClass blanks the identifiers, expressions and numbers of a message.
@@ -763,6 +765,8 @@ type c11env struct {
 	useMu sync.Mutex
 	uses  map[string][]byte
 	nrun  int
+
+	cpuFlushed time.Duration
 }
 
 func (e *c11env) resolveUse(usePath string) ([]byte, error) {
@@ -868,7 +872,7 @@ func (e *c11env) exec(c *c11case, alwaysLeg2 bool) (reached string) {
 			}
 			var of *a.File
 			var oerr error
-			if sig, what := c11stage("parse", func() {
+			if sig, what := c11stage("parse-siblings", func() {
 				ot, _, e1 := t.Tokenize(tm, f.rel, f.src)
 				if e1 != nil {
 					oerr = e1
@@ -2021,4 +2025,303 @@ func c11edgeSrc(e string) (string, string) {
 		return c11prelude + "\n" + body + "\n", "edge-decl"
 	}
 	return body, "edge-raw"
+}
+
+// ------------------------------------------------------------------ phases
+
+func c11setup(rc *vk.Rec) *c11env {
+	debug.SetMaxStack(512 << 20) // the parser's recursion is bounded by the text size only: 64 KiB of "(" needs ~40 MB
+	c11limitAS(rc, 4<<30)
+	e := &c11env{rc: rc, corp: c11load(rc), uses: map[string][]byte{}}
+	if len(e.corp.files) < 10 {
+		rc.Inconclusive("C11: no Wuffs sources found under " + c11repo())
+		return nil
+	}
+	e.leg2 = c11newLeg2(rc)
+	if rc.Shard == 0 {
+		rc.Count("corpus_files", int64(len(e.corp.files)))
+		rc.Count("corpus_packages", int64(len(e.corp.pkgs)))
+	}
+	go c11watch()
+	return e
+}
+
+func (e *c11env) budget(phase string, qGen, qGcc, tGen, tGcc int) {
+	if e.leg2 == nil {
+		return
+	}
+	if e.rc.Thorough() {
+		e.leg2.budget(phase, tGen, tGcc)
+	} else {
+		e.leg2.budget(phase, qGen, qGcc)
+	}
+}
+
+func (e *c11env) flushCPU() {
+	for k, v := range c11stageCPU {
+		e.rc.Count("cpu_ms_"+k, int64(v/time.Millisecond))
+		delete(c11stageCPU, k)
+	}
+	e.rc.Count("cpu_ms_total", int64((c11cpuNow()-e.cpuFlushed)/time.Millisecond))
+	e.cpuFlushed = c11cpuNow()
+}
+
+// inPkg makes a case that replaces file f of its package.
+func c11inPkg(phase string, idx int64, family, kind, desc string, f *c11file, src []byte) *c11case {
+	return &c11case{phase: phase, idx: idx, family: family, kind: kind, desc: desc, pkg: f.pkg, fidx: f.idx, name: f.rel, src: src}
+}
+
+func c11alone(phase string, idx int64, family, kind, desc string, src []byte) *c11case {
+	return &c11case{phase: phase, idx: idx, family: family, kind: kind, desc: desc, fidx: -1, name: "c11/" + family + ".wuffs", src: src}
+}
+
+func (e *c11env) sample(c *c11case, reached string) {
+	if e.rc.NSamples() < 3 && e.rc.Shard < 3 && len(c.src) < 4000 {
+		e.rc.Sample(map[string]interface{}{"phase": c.phase, "idx": c.idx, "kind": c.kind, "mutation": c.desc, "file": c.name,
+			"reached": reached, "src": vk.Trunc(c.src, 300)})
+	}
+}
+
+// C11D: unmutated packages, hand-written edge files, exhaustive truncation,
+// nesting deepeners, extreme literals and widths.
+func C11D(rc *vk.Rec) {
+	e := c11setup(rc)
+	if e == nil {
+		return
+	}
+	cp := e.corp
+
+	// every std package and hello-wuffs-c, unmutated, through both legs
+	phase := "orig"
+	for i, p := range cp.pkgs {
+		idx := int64(i)
+		if i%rc.NShards != rc.Shard || rc.SkipCase(phase, idx) {
+			continue
+		}
+		f := p.files[0]
+		c := c11inPkg(phase, idx, "orig", "orig", "unmutated package "+p.dir, f, f.src)
+		if got := e.exec(c, true); got != "accept" {
+			rc.ViolateCase("unmutated-package-rejected:"+got, "the unmutated package "+p.dir+" stops at stage "+got, phase, idx, map[string]interface{}{"package_dir": p.dir})
+		} else {
+			rc.Count("orig_packages_accepted", 1)
+		}
+		// and every file of it on its own through tokenize/parse/render
+		for k, g := range p.files {
+			if k > 0 {
+				c := c11inPkg(phase, idx, "orig", "orig", "unmutated package "+p.dir, g, g.src)
+				c11wd.mu.Lock()
+				c11wd.active = false
+				c11wd.mu.Unlock()
+				tm := &t.Map{}
+				if sig, what := c11stage("render", func() {
+					toks, cmts, err := t.Tokenize(tm, g.rel, g.src)
+					if err == nil {
+						var buf bytes.Buffer
+						render.Render(&buf, tm, toks, cmts)
+					}
+				}); sig != "" {
+					rc.ViolateCase(sig, what, phase, idx, c.extra())
+				}
+			}
+		}
+	}
+	rc.Finish()
+
+	// hand-written edge files, verbatim and with token-level edits
+	phase = "edge"
+	e.budget("edge", 4, 2, 200, 100)
+	per := 3
+	if rc.Thorough() {
+		per = 60
+	}
+	for i, ed := range c11edges {
+		if i%rc.NShards != rc.Shard {
+			continue
+		}
+		src, kind := c11edgeSrc(ed)
+		idx := int64(i) * 1000
+		if !rc.SkipCase(phase, idx) {
+			c := c11alone(phase, idx, "edge", kind, fmt.Sprintf("edge file #%d verbatim", i), []byte(src))
+			got := e.exec(c, true)
+			if i < 2 {
+				e.sample(c, got)
+			}
+		}
+		toks, tail, ok := c11scan([]byte(src))
+		if !ok || len(toks) < 3 {
+			continue
+		}
+		ef := &c11file{rel: "c11/edge.wuffs", src: []byte(src), toks: toks, tail: tail}
+		ef.analyse()
+		for k := 1; k <= per; k++ {
+			idx := int64(i)*1000 + int64(k)
+			if rc.SkipCase(phase, idx) {
+				continue
+			}
+			r := vk.CaseRNG(rc.Seed, 0, phase, idx)
+			msrc, mk, md := cp.mutTok(r, ef)
+			c := c11alone(phase, idx, "edge", "edge-"+mk, fmt.Sprintf("edge file #%d: %s", i, md), msrc)
+			e.exec(c, false)
+		}
+	}
+	rc.Finish()
+
+	// a few small files cut at every token boundary (exhaustive)
+	phase = "trunc"
+	e.budget("trunc", 6, 3, 100, 50)
+	n := int64(0)
+	for _, f := range cp.small {
+		off := 0
+		for k := 0; k <= len(f.toks); k++ {
+			idx := n
+			n++
+			cut := off
+			if k < len(f.toks) {
+				off += len(f.toks[k].gap) + len(f.toks[k].text)
+			} else {
+				cut = len(f.src)
+			}
+			if int(idx)%rc.NShards != rc.Shard || rc.SkipCase(phase, idx) {
+				continue
+			}
+			c := c11inPkg(phase, idx, "trunc", "trunc-token-boundary", fmt.Sprintf("first %d of %d tokens (%d bytes)", k, len(f.toks), cut), f, f.src[:cut])
+			e.exec(c, false)
+			rc.Count("trunc_cases", 1)
+			// and once more with the cut inside the token that follows
+			if k < len(f.toks) && len(f.toks[k].text) > 1 {
+				mid := cut + len(f.toks[k].gap) + len(f.toks[k].text)/2
+				c := c11inPkg(phase, idx, "trunc", "trunc-inside-token", fmt.Sprintf("%d bytes: inside token %d", mid, k), f, f.src[:mid])
+				e.exec(c, false)
+				rc.Count("trunc_cases", 1)
+			}
+		}
+	}
+	if rc.Shard == 0 {
+		rc.Count("trunc_files_exhaustive", int64(len(cp.small)))
+		rc.Count("trunc_token_boundaries_total", n)
+	}
+	rc.Finish()
+
+	phase = "deep"
+	e.budget("deep", 3, 2, 150, 60)
+	for idx := int64(0); idx < int64(rc.N(900, 40000)); idx++ {
+		if rc.SkipCase(phase, idx) {
+			continue
+		}
+		r := rc.RNG(phase, idx)
+		var c *c11case
+		if r.Intn(3) == 0 {
+			f := cp.files[r.Intn(len(cp.files))]
+			if src, k, d, ok := cp.deepInSitu(r, f); ok {
+				c = c11inPkg(phase, idx, "deep", k, d, f, src)
+			}
+		}
+		if c == nil {
+			src, k, d := c11synthDeep(r)
+			c = c11alone(phase, idx, "deep", k, d, []byte(src))
+		}
+		e.exec(c, false)
+	}
+	rc.Finish()
+
+	phase = "lit"
+	e.budget("lit", 3, 2, 150, 60)
+	for idx := int64(0); idx < int64(rc.N(600, 20000)); idx++ {
+		if rc.SkipCase(phase, idx) {
+			continue
+		}
+		r := rc.RNG(phase, idx)
+		var c *c11case
+		if r.Intn(2) == 0 {
+			f := cp.files[r.Intn(len(cp.files))]
+			if src, k, d, ok := cp.litInSitu(r, f); ok {
+				c = c11inPkg(phase, idx, "lit", k, d, f, src)
+			}
+		}
+		if c == nil {
+			src, k, d := c11synthLit(r)
+			c = c11alone(phase, idx, "lit", k, d, []byte(src))
+		}
+		e.exec(c, false)
+	}
+	e.flushCPU()
+}
+
+// C11: random bytes and token-, line- and tree-level mutants of every std
+// and hello-wuffs-c source file.
+func C11(rc *vk.Rec) {
+	e := c11setup(rc)
+	if e == nil {
+		return
+	}
+	cp := e.corp
+
+	phase := "bytes"
+	e.budget("bytes", 2, 1, 60, 30)
+	for idx := int64(0); idx < int64(rc.N(2500, 150000)); idx++ {
+		if rc.SkipCase(phase, idx) {
+			continue
+		}
+		r := rc.RNG(phase, idx)
+		src, k, f := cp.randBytes(r)
+		var c *c11case
+		if f != nil {
+			c = c11inPkg(phase, idx, "bytes", k, "", f, src)
+		} else {
+			c = c11alone(phase, idx, "bytes", k, "", src)
+		}
+		got := e.exec(c, false)
+		if idx == 1 {
+			e.sample(c, got)
+		}
+	}
+	rc.Finish()
+
+	phase = "tok"
+	e.budget("tok", 6, 3, 400, 150)
+	for idx := int64(0); idx < int64(rc.N(9000, 600000)); idx++ {
+		if rc.SkipCase(phase, idx) {
+			continue
+		}
+		r := rc.RNG(phase, idx)
+		f := cp.files[r.Intn(len(cp.files))]
+		src, k, d := cp.mutTok(r, f)
+		c := c11inPkg(phase, idx, "tok", k, d, f, src)
+		got := e.exec(c, false)
+		if idx == 2 {
+			c.src = nil
+			e.sample(c, got)
+		}
+	}
+	rc.Finish()
+
+	phase = "line"
+	e.budget("line", 4, 2, 200, 80)
+	for idx := int64(0); idx < int64(rc.N(2000, 100000)); idx++ {
+		if rc.SkipCase(phase, idx) {
+			continue
+		}
+		r := rc.RNG(phase, idx)
+		f := cp.files[r.Intn(len(cp.files))]
+		src, k, d := c11mutLine(r, f)
+		e.exec(c11inPkg(phase, idx, "line", k, d, f, src), false)
+	}
+	rc.Finish()
+
+	phase = "tree"
+	e.budget("tree", 6, 3, 300, 120)
+	for idx := int64(0); idx < int64(rc.N(3500, 200000)); idx++ {
+		if rc.SkipCase(phase, idx) {
+			continue
+		}
+		r := rc.RNG(phase, idx)
+		f := cp.files[r.Intn(len(cp.files))]
+		src, k, d := cp.mutTree(r, f)
+		fam := "tree"
+		if strings.HasPrefix(k, "tok-") {
+			fam = "tok"
+		}
+		e.exec(c11inPkg(phase, idx, fam, k, d, f, src), false)
+	}
+	e.flushCPU()
 }
